@@ -130,7 +130,18 @@ class ManualLeasePublisher:
             return False
         self.world.ev('s', 'lease_published', count=count, ttl_ms=ttl_ms)
         self.published.append((count, ttl_ms))
-        self.subscriber.on_next(DefinedLease(maximum_request_count=count, maximum_lease_time=timedelta(milliseconds=ttl_ms)))
+        self.last = DefinedLease(maximum_request_count=count, maximum_lease_time=timedelta(milliseconds=ttl_ms))
+        self.subscriber.on_next(self.last)
+        return True
+
+    def publish_again(self):
+        """a renewal loop that keeps one lease object and emits it again"""
+        if self.subscriber is None or getattr(self, 'last', None) is None:
+            return False
+        count, ttl_ms = self.published[-1]
+        self.world.ev('s', 'lease_published', count=count, ttl_ms=ttl_ms, same_object=True)
+        self.published.append((count, ttl_ms))
+        self.subscriber.on_next(self.last)
         return True
 
 
@@ -624,6 +635,15 @@ async def _execute(loop, program, observe=None):
     if cfg.get('client_lease_publisher'):
         # a client that grants leases itself (it has a lease publisher), whether or not it honours the server's
         ckw['lease_publisher'] = ManualLeasePublisher(world)
+        if cfg['client_lease_publisher'] == 'eager':
+            # a publisher that has a lease ready and hands it over from inside subscribe() (legal for a Publisher)
+            eager = ckw['lease_publisher']
+            plain_subscribe = eager.subscribe
+
+            def subscribe_and_emit(subscriber, _plain=plain_subscribe, _pub=eager):
+                _plain(subscriber)
+                _pub.publish(5, 10000)
+            eager.subscribe = subscribe_and_emit
     raw_side = cfg.get('raw')
     scn.raw = None
     scn.raws = []
@@ -854,7 +874,10 @@ async def _execute(loop, program, observe=None):
                         s.cancel()
         elif name == 'lease':
             if lease_pub is not None:
-                lease_pub.publish(op[1], op[2])
+                if op[1] == 'again':
+                    lease_pub.publish_again()
+                else:
+                    lease_pub.publish(op[1], op[2])
         elif name == 'call':
             fn = (program.get('_actions') or {}).get(op[1])
             if fn is not None:
